@@ -427,7 +427,7 @@ class Interp:
 
     # ---- expressions ------------------------------------------------------
     def truth(self, v, node=None):
-        if isinstance(v, (bool, int, float, str, bytes, list, tuple, dict, type(None), set)):
+        if isinstance(v, (bool, int, float, str, bytes, list, tuple, dict, type(None), set, USet)):
             return bool(v)
         if isinstance(v, Obj):
             return True
@@ -453,6 +453,9 @@ class Interp:
         if e.id in getattr(self, "globals", {}):
             return self.globals[e.id]
         mod = env.get("__mod__")
+        cb = env.get("__classbody__")
+        if cb is not None and e.id in cb.consts:
+            return self.eval(cb.consts[e.id], env)  # a class-level expression naming a sibling class constant
         if e.id in ("True", "False", "None"):
             return {"True": True, "False": False, "None": None}[e.id]
         if e.id in BUILTINS:
@@ -506,7 +509,7 @@ class Interp:
                             return self.call(fi, base)
                         return BoundMethod(base, fi)
                     if attr in k.consts:
-                        return self.eval(k.consts[attr], {"__class__": k, "__mod__": k.mod})
+                        return self.eval(k.consts[attr], {"__class__": k, "__mod__": k.mod, "__classbody__": k})
             raise PyRaise(f"AttributeError: {attr}", node)
         if isinstance(base, SuperRef):
             mro = self.repo.mro(base.obj.cls)
@@ -525,13 +528,16 @@ class Interp:
                 return EnumMember(base.cls, attr, base.cls.consts[attr].value)
             for k in self.repo.mro(base.cls):
                 if attr in k.consts:
-                    return self.eval(k.consts[attr], {"__class__": k, "__mod__": k.mod})
+                    return self.eval(k.consts[attr], {"__class__": k, "__mod__": k.mod, "__classbody__": k})
                 if attr in k.methods:
                     return BoundMethod(None, k.methods[attr])
             raise Undecided(f"{base.cls.name}.{attr}")
         if isinstance(base, ModuleRef):
             return Builtin(f"{base.name}.{attr}")
-        if isinstance(base, (str, bytes, list, tuple, dict, set, frozenset, bytearray)):
+        if isinstance(base, Builtin) and base.name in ("dict", "str", "bytes", "int", "list", "tuple", "set", "frozenset", "float"):
+            import builtins as _b
+            return PyMethod(getattr(_b, base.name), attr)  # dict.fromkeys, str.join, bytes.fromhex, int.from_bytes ...
+        if isinstance(base, (str, bytes, list, tuple, dict, set, frozenset, bytearray, USet)):
             return PyMethod(base, attr)
         if type(base).__module__ == "re" or type(base).__name__ in ("Pattern", "Match"):
             v = getattr(base, attr, None)
@@ -785,10 +791,10 @@ class Interp:
         return self._comp(e, env, list)
 
     def e_SetComp(self, e, env):
-        return self._comp(e, env, set)
+        return self._comp(e, env, USet)
 
     def e_Set(self, e, env):
-        return {self.eval(x, env) for x in e.elts}
+        return USet([self.eval(x, env) for x in e.elts])
 
     def e_DictComp(self, e, env):
         pair = ast.Tuple(elts=[e.key, e.value], ctx=ast.Load())
@@ -833,6 +839,83 @@ def _is_generator(fnode):
 def _load(target):
     t = ast.parse(ast.unparse(target), mode="eval").body
     return t
+
+
+class USet:
+    """model of set / frozenset for interpreted code: membership and size as usual, but iteration in the
+    REVERSE of insertion order.  Real set order is arbitrary (string hashing is randomised per process), so code
+    whose result depends on it is exposed instead of passing by the luck of this process's hash seed."""
+
+    def __init__(self, items=()):
+        self._items = []
+        for x in items:
+            self.add(x)
+
+    def add(self, x):
+        if x not in self._items:
+            self._items.append(x)
+
+    def discard(self, x):
+        if x in self._items:
+            self._items.remove(x)
+
+    def remove(self, x):
+        self._items.remove(x)
+
+    def update(self, other):
+        for x in list(other):
+            self.add(x)
+
+    def copy(self):
+        return USet(self._items)
+
+    def union(self, *others):
+        r = USet(self._items)
+        for o in others:
+            r.update(o)
+        return r
+
+    def intersection(self, other):
+        o = list(other)
+        return USet([x for x in self._items if x in o])
+
+    def difference(self, other):
+        o = list(other)
+        return USet([x for x in self._items if x not in o])
+
+    def issubset(self, other):
+        o = list(other)
+        return all(x in o for x in self._items)
+
+    __or__ = union
+    __and__ = intersection
+    __sub__ = difference
+
+    def __le__(self, other):
+        return self.issubset(other)
+
+    def __contains__(self, x):
+        return x in self._items
+
+    def __len__(self):
+        return len(self._items)
+
+    def __bool__(self):
+        return bool(self._items)
+
+    def __iter__(self):
+        return iter(list(reversed(self._items)))
+
+    def __eq__(self, o):
+        if isinstance(o, (USet, set, frozenset)):
+            return len(self) == len(o) and all(x in o for x in self._items)
+        return False
+
+    def __hash__(self):
+        return hash(len(self._items))
+
+    def __repr__(self):
+        return "{" + ", ".join(map(repr, self._items)) + "}"
 
 
 class _Iter:
@@ -942,7 +1025,7 @@ class Builtin:
         if n == "len" and args and hasattr(args[0], "length"):
             return args[0].length()
         if n in ("max", "min", "len", "abs", "str", "bool", "list", "tuple", "dict", "bytes",
-                 "sorted", "hex", "round", "set"):
+                 "sorted", "hex", "round"):
             if any(isinstance(a, Opaque) for a in args):
                 return Opaque(n)
             try:
@@ -996,7 +1079,11 @@ class Builtin:
             raise PyRaise("StopIteration", node)
         if n == "iter":
             return _Iter(list(args[0]))
-        if n in ("frozenset", "sum", "divmod", "bytearray", "repr", "ord", "chr"):
+        if n in ("set", "frozenset"):
+            if any(isinstance(a, Opaque) for a in args):
+                return Opaque(n)
+            return USet(list(args[0]) if args else [])
+        if n in ("sum", "divmod", "bytearray", "repr", "ord", "chr"):
             if any(isinstance(a, Opaque) for a in args):
                 return Opaque(n)
             import builtins as _b
